@@ -217,7 +217,11 @@ def run(tier, workers=None):
         "pairs_left_undecided_by_default_collation": tot["undecided"],
         "requests_executed": tot["requests"], "configs": [c.label for c in cfgs], "exhaustive": True,
     }
+    from . import sizes
+
+    cov.update(sizes.run_sweep(rep, "C12", ['addressbook-query']))
     return rep.finish("exploration", cov, assumptions=[
+        "size sweep: the collection is grown member by member to 140 and the same view is checked at every size up to 8 and around 16, 32, 64, 100 and 128",
         "text is matched against the unescaped property value / each parameter value; property and parameter names are case-insensitive",
         "when no collation is given the RFC default (i;unicode-casemap) and xandikos' documented default (i;ascii-casemap) are both evaluated; pairs on which they differ are not judged",
         "a prop-filter with two conditions is only generated with test=\"allof\" (both must hold for the same property instance); the default anyof join of two conditions is not generated (xandikos always ANDs)",
